@@ -181,6 +181,8 @@ pub struct Outcome {
     pub superseded: bool,
     /// (Plutus input, the reference input declared to carry its datum)
     pub datum_refs: Vec<((Vec<u8>, u64), (Vec<u8>, u64))>,
+    /// certificates in the order of their first successful registration
+    pub cert_order: Vec<Vec<u8>>,
     /// the caller supplied a datum as bytes in a spelling the library itself would not choose (kept verbatim)
     pub verbatim_datums: bool,
     /// the builder's inputs at the time calc_script_data_hash was called
@@ -205,6 +207,8 @@ pub struct Scn<'a> {
     pub superseded: bool,
     /// (Plutus input, the reference input declared to carry its datum)
     pub datum_refs: Vec<((Vec<u8>, u64), (Vec<u8>, u64))>,
+    /// certificates in the order of their first successful registration
+    pub cert_order: Vec<Vec<u8>>,
     /// the caller supplied a datum as bytes in a spelling the library itself would not choose (kept verbatim)
     pub verbatim_datums: bool,
 }
@@ -227,7 +231,7 @@ pub fn val_to_csl(v: &Val) -> Value {
 impl<'a> Scn<'a> {
     pub fn new(r: &'a mut Rng, ring: &'a KeyRing, f: Focus) -> Scn<'a> {
         let net = r.below(2) as u8;
-        Scn { r, ring, f, utxos: vec![], log: vec![], markers: vec![], next_marker: 1000, next_tx: 1, declared_refs: vec![], net, used_langs: vec![], panics: vec![], extra_signers: vec![], superseded: false, datum_refs: vec![], verbatim_datums: false }
+        Scn { r, ring, f, utxos: vec![], log: vec![], markers: vec![], next_marker: 1000, next_tx: 1, declared_refs: vec![], net, used_langs: vec![], panics: vec![], extra_signers: vec![], superseded: false, datum_refs: vec![], cert_order: vec![], verbatim_datums: false }
     }
     fn p(&mut self, num: u64) -> bool {
         self.r.below(16) < num
@@ -718,6 +722,7 @@ pub fn run_scenario(r: &mut Rng, ring: &KeyRing, f: Focus) -> Option<Outcome> {
         let mut cb = CertificatesBuilder::new();
         let n = 1 + s.r.below(3);
         let mut have_any = false;
+        let mut readd: Vec<(Certificate, Option<usize>)> = vec![];
         for _ in 0..n {
             let kind = loop {
                 let k = s.r.below(19);
@@ -748,6 +753,7 @@ pub fn run_scenario(r: &mut Rng, ring: &KeyRing, f: Focus) -> Option<Outcome> {
                 _ => DRep::new_script_hash(&ring.natives[1].hash()),
             };
             let anchor = Anchor::new(&URL::new("https://x.y".into()).unwrap(), &AnchorDataHash::from_bytes(vec![3; 32]).unwrap());
+            let mut hot_script: Option<usize> = None;
             let cert = match kind {
                 0 => Certificate::new_stake_registration(&StakeRegistration::new(&cred)),
                 1 => Certificate::new_stake_deregistration(&StakeDeregistration::new(&cred)),
@@ -778,7 +784,16 @@ pub fn run_scenario(r: &mut Rng, ring: &KeyRing, f: Focus) -> Option<Outcome> {
                 11 => Certificate::new_stake_registration_and_delegation(&StakeRegistrationAndDelegation::new(&cred, &pool, &coin)),
                 12 => Certificate::new_vote_registration_and_delegation(&VoteRegistrationAndDelegation::new(&cred, &drep, &coin)),
                 13 => Certificate::new_stake_vote_registration_and_delegation(&StakeVoteRegistrationAndDelegation::new(&cred, &pool, &drep, &coin)),
-                14 => Certificate::new_committee_hot_auth(&CommitteeHotAuth::new(&cred, &Credential::from_keyhash(&ring.keys[s.r.usize(ring.keys.len())].hash))),
+                14 => {
+                    // the hot credential never witnesses this certificate, whatever its kind
+                    let hot = if s.p(6) {
+                        hot_script = Some(s.r.usize(ring.plutus.len()));
+                        Credential::from_scripthash(&ring.plutus[hot_script.unwrap()].hash())
+                    } else {
+                        Credential::from_keyhash(&ring.keys[s.r.usize(ring.keys.len())].hash)
+                    };
+                    Certificate::new_committee_hot_auth(&CommitteeHotAuth::new(&cred, &hot))
+                }
                 15 => Certificate::new_committee_cold_resign(&CommitteeColdResign::new_with_anchor(&cred, &anchor)),
                 16 => Certificate::new_drep_registration(&DRepRegistration::new(&cred, &coin)),
                 17 => Certificate::new_drep_deregistration(&DRepDeregistration::new(&cred, &coin)),
@@ -796,14 +811,55 @@ pub fn run_scenario(r: &mut Rng, ring: &KeyRing, f: Focus) -> Option<Outcome> {
                     if let Some(Ok(())) = r {
                         any_plutus = true;
                         s.markers.push(Marker { marker: m, purpose: 2, item: ItemId::Cert(cert_bytes.clone()), script_hash: ring.plutus[i].hash().to_bytes() });
+                        r
+                    } else {
+                        // a caller told "this certificate needs no script witness" adds it plainly
+                        s.log.push("cert: add_with_plutus_witness refused, caller falls back to add".into());
+                        g!(s, "certs.add(fallback)", cb.add(&cert))
                     }
-                    r
                 }
-                _ => g!(s, "certs.add", cb.add(&cert)),
+                _ => {
+                    let r = g!(s, "certs.add", cb.add(&cert));
+                    match (&r, hot_script) {
+                        (Some(Err(_)), Some(i)) => {
+                            // a caller told "this certificate needs a script witness" supplies the script it names
+                            s.log.push("cert: add refused, caller falls back to add_with_plutus_witness".into());
+                            let (m, w) = s.plutus_witness_nodatum(i, RedeemerTag::new_cert());
+                            let r2 = g!(s, "certs.add_with_plutus_witness(fallback)", cb.add_with_plutus_witness(&cert, &w));
+                            if let Some(Ok(())) = r2 {
+                                any_plutus = true;
+                                s.markers.push(Marker { marker: m, purpose: 2, item: ItemId::Cert(cert_bytes.clone()), script_hash: ring.plutus[i].hash().to_bytes() });
+                            }
+                            r2
+                        }
+                        _ => r,
+                    }
+                }
             };
             s.log.push(format!("cert kind={} mode={} -> {}", kind, mode, res.as_ref().map(ok_str).unwrap_or("PANIC".into())));
             if let Some(Ok(())) = res {
                 have_any = true;
+                if !s.cert_order.contains(&cert_bytes) {
+                    s.cert_order.push(cert_bytes.clone());
+                    if pl_ix.is_none() && hot_script.is_none() {
+                        readd.push((cert.clone(), nat_ix));
+                    }
+                }
+            }
+        }
+        // the same certificate registered again later (a caller retrying): refused or ignored, the
+        // certificates keep the order of their first registration
+        if s.cert_order.len() >= 2 && !readd.is_empty() && s.p(4) {
+            let (cert, nat_ix) = readd[0].clone();
+            if cert.to_bytes() != *s.cert_order.last().unwrap() {
+                let r2 = match nat_ix {
+                    Some(i) => {
+                        let src = s.native_source(i);
+                        g!(s, "certs.add_with_native_script(again)", cb.add_with_native_script(&cert, &src))
+                    }
+                    None => g!(s, "certs.add(again)", cb.add(&cert)),
+                };
+                s.log.push(format!("cert registered again -> {}", r2.as_ref().map(ok_str).unwrap_or("PANIC".into())));
             }
         }
         if have_any {
@@ -819,6 +875,7 @@ pub fn run_scenario(r: &mut Rng, ring: &KeyRing, f: Focus) -> Option<Outcome> {
         let mut wb = WithdrawalsBuilder::new();
         let n = 1 + s.r.below(4);
         let mut seen: Vec<Vec<u8>> = vec![];
+        let mut key_amounts: Vec<(Vec<u8>, u64)> = vec![];
         for _ in 0..n {
             let mode = if s.p(s.f.plutus) { 2 } else if s.p(s.f.scripts) { 1 } else { 0 };
             let coin = match s.r.below(4) {
@@ -830,11 +887,29 @@ pub fn run_scenario(r: &mut Rng, ring: &KeyRing, f: Focus) -> Option<Outcome> {
                 0 => {
                     let k = s.key_ix();
                     let ra = RewardAddress::new(s.net, &Credential::from_keyhash(&ring.keys[k].hash));
-                    if seen.contains(&ra.to_address().to_bytes()) {
-                        continue;
+                    let rab = ra.to_address().to_bytes();
+                    if let Some(pos) = key_amounts.iter().position(|(a, _)| *a == rab) {
+                        // the same account again: the later amount replaces the earlier one
+                        let r = g!(s, "withdrawals.add(again)", wb.add(&ra, &BigNum::from(coin)));
+                        s.log.push(format!("withdrawal for the same key account again: {} -> {}", key_amounts[pos].1, coin));
+                        if let Some(Ok(())) = r {
+                            have_coin -= key_amounts[pos].1 as u128;
+                            key_amounts[pos].1 = coin;
+                        } else {
+                            continue;
+                        }
+                        r
+                    } else {
+                        if seen.contains(&rab) {
+                            continue;
+                        }
+                        seen.push(rab.clone());
+                        let r = g!(s, "withdrawals.add", wb.add(&ra, &BigNum::from(coin)));
+                        if let Some(Ok(())) = r {
+                            key_amounts.push((rab, coin));
+                        }
+                        r
                     }
-                    seen.push(ra.to_address().to_bytes());
-                    g!(s, "withdrawals.add", wb.add(&ra, &BigNum::from(coin)))
                 }
                 1 => {
                     let i = s.r.usize(ring.natives.len());
@@ -1052,8 +1127,20 @@ pub fn run_scenario(r: &mut Rng, ring: &KeyRing, f: Focus) -> Option<Outcome> {
             let v = s.gen_val(false);
             let i = s.new_utxo(&addr, v);
             let o = s.outpoint(i);
-            g!(s, "add_reference_input", tb.add_reference_input(&Scn::tx_input(&o)));
-            s.log.push(format!("plain reference input {}#{}", hx(&o.0[..4]), o.1));
+            if s.carried_script(i).is_some() {
+                // the referenced UTxO carries a script nobody runs: the ledger charges for it all the same, so
+                // the caller declares its size - at once, or after having added the input plainly first
+                let size = s.utxos[i].ref_script_size as usize;
+                let plain_first = s.r.bool();
+                if plain_first {
+                    g!(s, "add_reference_input", tb.add_reference_input(&Scn::tx_input(&o)));
+                }
+                g!(s, "add_script_reference_input", tb.add_script_reference_input(&Scn::tx_input(&o), size));
+                s.log.push(format!("reference input {}#{} carrying a script of {} bytes (plain first: {})", hx(&o.0[..4]), o.1, size, plain_first));
+            } else {
+                g!(s, "add_reference_input", tb.add_reference_input(&Scn::tx_input(&o)));
+                s.log.push(format!("plain reference input {}#{}", hx(&o.0[..4]), o.1));
+            }
         }
     }
 
@@ -1459,6 +1546,7 @@ pub fn run_scenario(r: &mut Rng, ring: &KeyRing, f: Focus) -> Option<Outcome> {
         extra_signers: s.extra_signers,
         superseded: s.superseded,
         datum_refs: s.datum_refs,
+        cert_order: s.cert_order,
         verbatim_datums: s.verbatim_datums,
     })
 }
